@@ -94,8 +94,19 @@ pub(crate) fn c14_rwlock_cas_rcu() {
     let h = fresh_handle(new);
     let c0 = counts();
     let c = TP::adopt(cur);
+    model::log_reset();
+    let w_wr = model::watch(model::K_WRITE, &s.ptr as *const _ as usize);
+    unsafe { crate::verif::set_hooks(None, Some(model::record_after)) };
     let r = s.compare_and_swap(&c, h);
+    unsafe { crate::verif::set_hooks(None, None) };
     mem::forget(c);
+    let wr = model::w(w_wr);
+    // swap/store do not take the lock, so the exchange itself must be one atomic compare-exchange
+    vassert!(wr.count == (init == cur) as usize, "rwlock_cas_writes_iff_stored_equals_current");
+    if wr.count == 1 {
+        vassert!(wr.first_rec.kind == model::K_CAS || wr.first_rec.kind == model::K_CASW, "rwlock_cas_is_one_atomic_compare_exchange");
+        vassert!(wr.first_rec.a == model::addr(cur) && wr.first_rec.res == model::addr(cur), "rwlock_cas_exchange_expected_and_found_current");
+    }
     vassert!(r.deref().0 == model::addr(init), "rwlock_cas_returns_the_value_stored_immediately_before");
     if init == cur {
         vassert!(stored(&s) == model::addr(new), "rwlock_cas_stores_new_iff_stored_equals_current");
